@@ -42,13 +42,6 @@ import (
 
 // ---------------------------------------------------------------- keys
 
-type keyDef struct {
-	alg  jose.SignatureAlgorithm
-	kid  string
-	priv any
-	pub  any
-	kty  string // Gallina constructor
-}
 
 func ecKey(curve elliptic.Curve, label string) *ecdsa.PrivateKey {
 	r := opfix.DetReader("ec:" + curve.Params().Name + ":" + label)
@@ -82,32 +75,84 @@ func pubOf(priv any) any {
 	return nil
 }
 
-// signing keys, and for each a second ("old") key of the same type that may be published too
-func keyPool() (cur, old []keyDef) {
-	mk := func(alg jose.SignatureAlgorithm, priv any, kty, label string) keyDef {
-		return keyDef{alg: alg, kid: "sig-" + strings.ToLower(string(alg)) + "-" + label, priv: priv, pub: pubOf(priv), kty: kty}
-	}
+// material: one key pair; id = its index in the pool (the model's k_mat / sk_mat)
+type material struct {
+	id   int
+	priv any
+	pub  any
+	kty  string // Gallina constructor
+}
+
+// algDef: a signing algorithm and the two key materials the driver uses with it
+// (RS256 and PS256 share the RSA materials on purpose).
+type algDef struct {
+	alg  jose.SignatureAlgorithm
+	mats [2]material
+}
+
+// signState: what Storage.SigningKey / KeySet answer at one point of a history
+type signState struct {
+	algIdx   int
+	alg      jose.SignatureAlgorithm
+	kid      string
+	m        material
+	extraKid string // "" = no further published key
+	extraAlg jose.SignatureAlgorithm
+	extra    material
+}
+
+func keyPool() (algs []algDef, pool []any) {
 	rsa2, err := rsa.GenerateKey(opfix.DetReader("rsa-old"), 2048)
 	if err != nil {
 		panic(err)
 	}
-	cur = []keyDef{
-		mk(jose.RS256, opfix.RSAKey(), "KRsa", "1"),
-		mk(jose.PS256, opfix.RSAKey(), "KRsa", "1"),
-		mk(jose.ES256, opfix.ECKey("op-signing"), "KEc", "1"),
-		mk(jose.ES384, ecKey(elliptic.P384(), "op-signing"), "KEc", "1"),
-		mk(jose.ES512, ecKey(elliptic.P521(), "op-signing"), "KEc", "1"),
-		mk(jose.EdDSA, opfix.EdKey("op-signing"), "KOkp", "1"),
+	privs := []struct {
+		priv any
+		kty  string
+	}{
+		{opfix.RSAKey(), "KRsa"}, {rsa2, "KRsa"},
+		{opfix.ECKey("op-signing"), "KEc"}, {opfix.ECKey("op-old"), "KEc"},
+		{ecKey(elliptic.P384(), "op-signing"), "KEc"}, {ecKey(elliptic.P384(), "op-old"), "KEc"},
+		{ecKey(elliptic.P521(), "op-signing"), "KEc"}, {ecKey(elliptic.P521(), "op-old"), "KEc"},
+		{opfix.EdKey("op-signing"), "KOkp"}, {opfix.EdKey("op-old"), "KOkp"},
 	}
-	old = []keyDef{
-		mk(jose.RS256, rsa2, "KRsa", "0"),
-		mk(jose.PS256, rsa2, "KRsa", "0"),
-		mk(jose.ES256, opfix.ECKey("op-old"), "KEc", "0"),
-		mk(jose.ES384, ecKey(elliptic.P384(), "op-old"), "KEc", "0"),
-		mk(jose.ES512, ecKey(elliptic.P521(), "op-old"), "KEc", "0"),
-		mk(jose.EdDSA, opfix.EdKey("op-old"), "KOkp", "0"),
+	mats := make([]material, len(privs))
+	for i, x := range privs {
+		mats[i] = material{id: i, priv: x.priv, pub: pubOf(x.priv), kty: x.kty}
+		pool = append(pool, mats[i].pub)
+	}
+	algs = []algDef{
+		{jose.RS256, [2]material{mats[0], mats[1]}},
+		{jose.PS256, [2]material{mats[0], mats[1]}},
+		{jose.ES256, [2]material{mats[2], mats[3]}},
+		{jose.ES384, [2]material{mats[4], mats[5]}},
+		{jose.ES512, [2]material{mats[6], mats[7]}},
+		{jose.EdDSA, [2]material{mats[8], mats[9]}},
 	}
 	return
+}
+
+// stateOf: the signing state params p asks for. The same kid is used for
+// different key material (and, with sharedKid, for different algorithms)
+// across cases, providers and histories of this one process on purpose.
+func stateOf(p params, algs []algDef) signState {
+	a := algs[p.key]
+	sk := signState{algIdx: p.key, alg: a.alg, m: a.mats[p.mat], kid: "sig-" + strings.ToLower(string(a.alg))}
+	if p.sharedKid {
+		sk.kid = "sig-1"
+	}
+	if p.extraKey {
+		sk.extraKid, sk.extraAlg, sk.extra = "prev-"+strings.ToLower(string(a.alg)), a.alg, a.mats[1-p.mat]
+	}
+	return sk
+}
+
+func applyKey(st *refstore.Store, sk signState) {
+	st.Signing = &refstore.SigningKey{KID: sk.kid, Alg: sk.alg, Priv: sk.m.priv}
+	st.ExtraPub = nil
+	if sk.extraKid != "" {
+		st.ExtraPub = []*refstore.PublicKey{{KID: sk.extraKid, Alg: sk.extraAlg, UseStr: "sig", Pub: sk.extra.pub}}
+	}
 }
 
 var allAlgs = []jose.SignatureAlgorithm{jose.RS256, jose.PS256, jose.ES256, jose.ES384, jose.ES512, jose.EdDSA,
@@ -139,6 +184,8 @@ type params struct {
 	router   opfix.Router
 	flow     string
 	key      int
+	mat      int  // which of the algorithm's two key materials signs
+	sharedKid bool // kid "sig-1" (shared by every algorithm) instead of "sig-<alg>"
 	extraKey bool
 	jwtAT    bool
 	skew     int64
@@ -226,6 +273,8 @@ func gen(r drv.Rand, i int, nKeys int) params {
 	if r.Chance(1, 3) {
 		p.key = r.IntN(nKeys)
 	}
+	p.mat = r.IntN(2)
+	p.sharedKid = r.Bool()
 	p.extraKey = r.Chance(1, 3)
 	p.jwtAT = r.Bool()
 	p.skew = drv.Pick(r, []int64{0, 0, 30, -30})
@@ -400,15 +449,11 @@ func dropFn(drop []string) func([]string) []string {
 	return func(s []string) []string { return without(s, drop) }
 }
 
-// setup builds store + fixture for p.
-func setup(p params, cur, old []keyDef) (*refstore.Store, *opfix.Fixture) {
-	k := cur[p.key]
+// setup builds store + fixture. provAlgs: what the provider's own verifiers allow
+// (the signing algorithm; every algorithm of the history when the key will change).
+func setup(p params, sk signState, provAlgs []string) (*refstore.Store, *opfix.Fixture) {
 	st := opfix.NewStd()
-	st.Signing = &refstore.SigningKey{KID: k.kid, Alg: k.alg, Priv: k.priv}
-	if p.extraKey {
-		o := old[p.key]
-		st.ExtraPub = []*refstore.PublicKey{{KID: o.kid, Alg: o.alg, UseStr: "sig", Pub: o.pub}}
-	}
+	applyKey(st, sk)
 	for _, s := range subjects {
 		if s != "nobody" && st.Users[s] == nil {
 			st.Users[s] = &refstore.User{Subject: s, Name: "N " + s, Email: "e@" + strings.ReplaceAll(s, ":", ".")}
@@ -444,10 +489,9 @@ func setup(p params, cur, old []keyDef) (*refstore.Store, *opfix.Fixture) {
 	}
 	var key [32]byte
 	copy(key[:], "c06-provider-crypto-key-32-bytes")
-	alg := string(k.alg)
 	f, err := opfix.New(st, opfix.Options{CryptoKey: key, ProviderOpts: []op.Option{
-		op.WithAccessTokenVerifierOpts(op.WithSupportedAccessTokenSigningAlgorithms(alg)),
-		op.WithIDTokenHintVerifierOpts(op.WithSupportedIDTokenHintSigningAlgorithms(alg)),
+		op.WithAccessTokenVerifierOpts(op.WithSupportedAccessTokenSigningAlgorithms(provAlgs...)),
+		op.WithIDTokenHintVerifierOpts(op.WithSupportedIDTokenHintSigningAlgorithms(provAlgs...)),
 	}})
 	if err != nil {
 		panic(err)
@@ -865,9 +909,8 @@ func optStrs(l []string) []string {
 
 type tally struct{ ambiguous, failedSetup int }
 
-func oneCase(p params, cur, old []keyDef, w *emit.Writer, tl *tally) bool {
-	k := cur[p.key]
-	st, f := setup(p, cur, old)
+// oneCase: one issuance on (st, f) whose storage currently answers sk; hist tags the history step.
+func oneCase(p params, sk signState, st *refstore.Store, f *opfix.Fixture, pool []any, hist string, w *emit.Writer, tl *tally) bool {
 	var res *result
 	if pn := drv.Catch(func() { res = run(p, st, f) }); pn != "" {
 		res = &result{panicked: pn}
@@ -881,7 +924,6 @@ func oneCase(p params, cur, old []keyDef, w *emit.Writer, tl *tally) bool {
 		return false
 	}
 	ctx := op.ContextWithIssuer(context.Background(), opfix.Issuer)
-	pool := []any{k.pub, old[p.key].pub}
 
 	// ---- input term
 	flowTerm := map[string]string{"implicit_id": "FImplicitID", "implicit_tok": "FImplicitTok", "refresh": "FRefresh", "device": "FDevice",
@@ -891,10 +933,10 @@ func oneCase(p params, cur, old []keyDef, w *emit.Writer, tl *tally) bool {
 	}
 	clientTerm := emit.Ctor("mkClient", emit.Str(res.client), emit.Bool(p.jwtAT), emit.Z(p.skew), emit.Z(p.idLife), emit.Z(p.atLife),
 		emit.Bool(p.assert), emit.Bool(p.refreshGrant), emit.StrList(optStrs(p.dropID)), emit.StrList(optStrs(p.dropAT)))
-	keyTerm := emit.Ctor("mkKey", emit.Str(k.kid), emit.Str(string(k.alg)), k.kty, "0%N")
+	keyTerm := emit.Ctor("mkKey", emit.Str(sk.kid), emit.Str(string(sk.alg)), sk.m.kty, fmt.Sprintf("%d%%N", sk.m.id))
 	extraTerm := "[]"
-	if p.extraKey {
-		extraTerm = emit.List([]string{emit.Ctor("mkJwk", emit.Str(old[p.key].kid), emit.Str("sig"), old[p.key].kty, "1%N")})
+	if sk.extraKid != "" {
+		extraTerm = emit.List([]string{emit.Ctor("mkJwk", emit.Str(sk.extraKid), emit.Str("sig"), sk.extra.kty, fmt.Sprintf("%d%%N", sk.extra.id))})
 	}
 	userTerm := emit.None
 	if u := st.Users[res.rqSub]; u != nil {
@@ -1066,29 +1108,78 @@ func oneCase(p params, cur, old []keyDef, w *emit.Writer, tl *tally) bool {
 	if contains(res.rqScopes, "openid") {
 		openid = "1"
 	}
-	tags := []string{"router=" + p.router.String(), "flow=" + p.flow, "at=" + atKind, "alg=" + string(k.alg), fmt.Sprintf("skew=%d", p.skew),
+	tags := []string{"router=" + p.router.String(), "flow=" + p.flow, "at=" + atKind, "alg=" + string(sk.alg), fmt.Sprintf("skew=%d", p.skew),
 		fmt.Sprintf("idlife=%d", p.idLife), fmt.Sprintf("atlife=%d", p.atLife), "subject_colon=" + colon, "openid=" + openid,
 		"assert=" + emit.Bool(p.assert), fmt.Sprintf("offset=%d", p.offset), fmt.Sprintf("custom=%v", contains(res.rqScopes, "custom:x") || contains(res.rqScopes, "custom:y")),
-		fmt.Sprintf("extrakey=%v", p.extraKey), fmt.Sprintf("valgs_default=%v", p.vAlgs == nil)}
+		fmt.Sprintf("extrakey=%v", sk.extraKid != ""), fmt.Sprintf("valgs_default=%v", p.vAlgs == nil), "hist=" + hist}
 	w.Add(emit.Case{Input: emit.Ctor("ICase", caseTerm), Observed: observed, Tags: tags,
 		Human: map[string]any{"params": fmt.Sprintf("%+v", p), "status": res.status, "access_token": res.access, "id_token": res.idToken,
 			"subject": res.rqSub, "scopes": res.rqScopes}})
 	return true
 }
 
+var sixAlgs = []string{"RS256", "PS256", "ES256", "ES384", "ES512", "EdDSA"}
+
+// history: several issuances in one process around a change of the signing key.
+// Every response is verified against the key set served at that time.
+func history(r drv.Rand, p params, sk1 signState, algs []algDef, pool []any, w *emit.Writer, tl *tally) {
+	kind := drv.Pick(r, []string{"same_kid_new_key", "new_kid_new_key", "same_kid_new_alg", "two_providers"})
+	other := algs[p.key].mats[1-p.mat]
+	sk2, p2 := sk1, p
+	switch kind {
+	case "same_kid_new_key", "two_providers":
+		sk2.m, sk2.extraKid = other, "" // the old public key is withdrawn
+	case "new_kid_new_key":
+		sk2.m, sk2.kid = other, sk1.kid+"-next"
+		sk2.extraKid, sk2.extraAlg, sk2.extra = sk1.kid, sk1.alg, sk1.m // the old key stays published
+	case "same_kid_new_alg":
+		j := (p.key + 1 + r.IntN(len(algs)-1)) % len(algs)
+		sk2.algIdx, sk2.alg, sk2.m, sk2.extraKid = j, algs[j].alg, algs[j].mats[r.IntN(2)], ""
+		p2.key = j
+		if p.vAlgs != nil {
+			p2.vAlgs = []string{string(sk2.alg)}
+		}
+		if p.atAlgs != nil {
+			p2.atAlgs = []string{string(sk2.alg)}
+		}
+	}
+	if kind == "two_providers" {
+		stA, fA := setup(p, sk1, []string{string(sk1.alg)})
+		stB, fB := setup(p, sk2, []string{string(sk2.alg)})
+		oneCase(p, sk1, stA, fA, pool, kind+".a1", w, tl)
+		oneCase(p, sk2, stB, fB, pool, kind+".b1", w, tl)
+		oneCase(p, sk1, stA, fA, pool, kind+".a2", w, tl)
+		return
+	}
+	st, f := setup(p, sk1, sixAlgs)
+	oneCase(p, sk1, st, f, pool, kind+".1", w, tl)
+	applyKey(st, sk2)
+	oneCase(p2, sk2, st, f, pool, kind+".2", w, tl)
+	if kind == "same_kid_new_key" { // and back again
+		applyKey(st, sk1)
+		oneCase(p, sk1, st, f, pool, kind+".3", w, tl)
+	}
+}
+
 func main() {
 	cfg := drv.Parse()
 	r := drv.NewRand(cfg.Seed)
 	w := emit.NewWriter(cfg.Out, "C06_spec", 0, cfg.Only)
-	cur, old := keyPool()
+	algs, pool := keyPool()
 	n := cfg.Count(360, 6000)
 	tl := &tally{}
 	for i, tries := 0, 0; w.Len() < n && tries < 3*n+100; i, tries = i+1, tries+1 {
-		p := gen(r, i, len(cur))
-		oneCase(p, cur, old, w, tl)
+		p := gen(r, i, len(algs))
+		sk := stateOf(p, algs)
+		if i%5 != 4 {
+			st, f := setup(p, sk, []string{string(sk.alg)})
+			oneCase(p, sk, st, f, pool, "none", w, tl)
+			continue
+		}
+		history(r, p, sk, algs, pool, w, tl)
 	}
 	err := w.Close(emit.Meta{Property: "C06", Tier: cfg.Tier, Seed: cfg.Seed,
-		Rule: "one case = one token response: a complete flow (code, implicit id_token / id_token token, refresh, device, client_credentials, jwt-bearer, token-exchange for access / refresh / ID token) run over HTTP recorders against the Provider or LegacyServer router on refstore; flow and router cycle deterministically, the rest is drawn from the PRNG: signing key (RS256, PS256, ES256, ES384, ES512, EdDSA; optionally a second published key), access-token type, client clock skew (0, +-30 s), ID/access-token lifetimes, scope set (with/without openid, userinfo scopes, offline_access, custom:x/y), restricted scopes, userinfo-assertion flag, subject (also with ':' and unknown to the user store), audience, nonce/acr/amr/auth time, and the verifier configuration (consistent in most cases; default algorithm list, short offset against a negative skew as inconsistent ones). Every case issues tokens, so non-trivial = all; distinct = distinct (input, model path class: flow x token kind x refresh token x verdicts).",
+		Rule: "one case = one token response: a complete flow (code, implicit id_token / id_token token, refresh, device, client_credentials, jwt-bearer, token-exchange for access / refresh / ID token) run over HTTP recorders against the Provider or LegacyServer router on refstore; flow and router cycle deterministically, the rest is drawn from the PRNG: signing key (RS256, PS256, ES256, ES384, ES512, EdDSA; two key materials per algorithm under the SAME kid, kid shared across algorithms in half of the cases; optionally a second published key), access-token type, client clock skew (0, +-30 s), ID/access-token lifetimes, scope set (with/without openid, userinfo scopes, offline_access, custom:x/y), restricted scopes, userinfo-assertion flag, subject (also with ':' and unknown to the user store), audience, nonce/acr/amr/auth time, and the verifier configuration (consistent in most cases; default algorithm list, short offset against a negative skew as inconsistent ones). Every fifth slot is a multi-issuance history in one store/provider (tag hist=): issue, replace the storage's signing key (same kid new material and back; new kid new material with the old key still published; same kid other algorithm), issue again - or two providers alive at once with the same kid and different key material, issuing alternately; each response is a case of its own whose input names the key current at that issuance and which is verified against the /keys document served at that time. Every case issues tokens, so non-trivial = all; distinct = distinct (input, model path class: flow x token kind x refresh token x verdicts).",
 		Extra: map[string]any{"clock_ambiguous": tl.ambiguous, "setup_failed": tl.failedSetup}})
 	if err != nil {
 		fmt.Fprintln(os.Stderr, err)
